@@ -27,7 +27,7 @@ enum Rep<'a> {
     I32(i32), Isize(isize), Usize(usize), F64(f64), Bool(bool), Str(&'a str),
     RioNamed(Trusted<rio::NamedNode<'a>>), RioBlank(Trusted<rio::BlankNode<'a>>), RioVar(Trusted<rio::Variable<'a>>), RioLit(Trusted<rio::Literal<'a>>),
     RioTerm(Trusted<rio::Term<'a>>), RioGen(Trusted<rio::GeneralizedTerm<'a>>), RioGName(Trusted<rio::GraphName<'a>>),
-    Result(ResultTerm),
+    Result(ResultTerm), ResultCached(ResultTerm), JBn(sophia_jsonld::vocabulary::ArcBnode),
 }
 macro_rules! with_rep {
     ($r:expr, $x:ident => $body:expr) => {
@@ -37,7 +37,7 @@ macro_rules! with_rep {
             Rep::GenLit($x) => $body, Rep::Ns($x) => $body, Rep::IriW($x) => $body, Rep::IriRefW($x) => $body, Rep::BnodeW($x) => $body, Rep::VarW($x) => $body,
             Rep::I32($x) => $body, Rep::Isize($x) => $body, Rep::Usize($x) => $body, Rep::F64($x) => $body, Rep::Bool($x) => $body, Rep::Str($x) => $body,
             Rep::RioNamed($x) => $body, Rep::RioBlank($x) => $body, Rep::RioVar($x) => $body, Rep::RioLit($x) => $body,
-            Rep::RioTerm($x) => $body, Rep::RioGen($x) => $body, Rep::RioGName($x) => $body, Rep::Result($x) => $body,
+            Rep::RioTerm($x) => $body, Rep::RioGen($x) => $body, Rep::RioGName($x) => $body, Rep::Result($x) => $body, Rep::ResultCached($x) => $body, Rep::JBn($x) => $body,
         }
     };
 }
@@ -48,7 +48,7 @@ fn rep_name(r: &Rep) -> &'static str {
         Rep::GenLit(_) => "GenericLiteral", Rep::Ns(_) => "NsTerm", Rep::IriW(_) => "Iri<String>", Rep::IriRefW(_) => "IriRef<&str>", Rep::BnodeW(_) => "BnodeId", Rep::VarW(_) => "VarName",
         Rep::I32(_) => "i32", Rep::Isize(_) => "isize", Rep::Usize(_) => "usize", Rep::F64(_) => "f64", Rep::Bool(_) => "bool", Rep::Str(_) => "str",
         Rep::RioNamed(_) => "rio::NamedNode", Rep::RioBlank(_) => "rio::BlankNode", Rep::RioVar(_) => "rio::Variable", Rep::RioLit(_) => "rio::Literal",
-        Rep::RioTerm(_) => "rio::Term", Rep::RioGen(_) => "rio::GeneralizedTerm", Rep::RioGName(_) => "rio::GraphName", Rep::Result(_) => "ResultTerm",
+        Rep::RioTerm(_) => "rio::Term", Rep::RioGen(_) => "rio::GeneralizedTerm", Rep::RioGName(_) => "rio::GraphName", Rep::Result(_) => "ResultTerm", Rep::ResultCached(_) => "ResultTerm(value cached)", Rep::JBn(_) => "jsonld::vocabulary::ArcBnode",
     }
 }
 
@@ -74,6 +74,8 @@ fn reps<'a>(a: &'a Abs, arc_stash: &mut ArcStrStash, rc_stash: &mut RcStrStash) 
         Rep::ArcStashed(arc_stash.copy_term(st.borrow_term())), Rep::RcStashed(rc_stash.copy_term(st.borrow_term())),
         Rep::Cmp(CmpTerm(st.clone())), Rep::CmpArc(CmpTerm(ArcTerm::from_term(st.borrow_term()))),
         Rep::Result(ResultTerm::from(ArcTerm::from_term(st.borrow_term()))),
+        // the same with its SPARQL value already computed and cached inside the term
+        Rep::ResultCached({ let rt = ResultTerm::from(ArcTerm::from_term(st.borrow_term())); let _ = rt.value(); rt }),
     ];
     match st {
         SimpleTerm::Iri(i) => {
@@ -87,6 +89,7 @@ fn reps<'a>(a: &'a Abs, arc_stash: &mut ArcStrStash, rc_stash: &mut RcStrStash) 
         }
         SimpleTerm::BlankNode(b) => {
             v.push(Rep::BnodeW(BnodeId::new_unchecked(b.as_str().to_string())));
+            { use rdf_types::vocabulary::BlankIdVocabulary; let full = format!("_:{}", b.as_str()); if let Ok(id) = rdf_types::BlankId::new(&full) { if let Some(x) = sophia_jsonld::vocabulary::ArcVoc::default().get_blank_id(id) { v.push(Rep::JBn(x)); } } }
             v.push(Rep::RioBlank(Trusted(rio::BlankNode { id: b.as_str() })));
             v.push(Rep::RioTerm(Trusted(rio::Term::BlankNode(rio::BlankNode { id: b.as_str() }))));
             v.push(Rep::RioGen(Trusted(rio::GeneralizedTerm::BlankNode(rio::BlankNode { id: b.as_str() }))));
@@ -121,7 +124,7 @@ fn gen_abs(r: &mut Rng, depth: usize) -> Abs {
     let s = *r.pick(&STRS[..]);
     let (st, native) = match k {
         0 | 1 => (iri(&format!("http://e/{}", s.replace(' ', "_").replace('\u{ffff}', "\u{ffef}"))), Native::None),
-        2 => (bnode(&format!("b{}", s.replace(' ', "_").replace('\u{ffff}', "\u{ffef}"))), Native::None),
+        2 => (bnode(&format!("{}{}", r.ps(&["b", "b", "_", "__", "_b"]), s.replace(' ', "_").replace('\u{ffff}', "\u{ffef}"))), Native::None),
         3 => (var(&format!("v{}", s.replace(' ', "_").replace('\u{ffff}', "\u{ffef}"))), Native::None),
         4 => (lit_dt(s, &format!("{XSD}string")), Native::Str),
         5 => (lit_lang(s, *r.pick(&TAGS[..])), Native::None),
@@ -160,6 +163,10 @@ fn near_variants(st: &ST, r: &mut Rng) -> Vec<ST> {
     let ext = |x: &str| format!("{x}a");
     match st {
         SimpleTerm::LiteralLanguage(l, tag) => { let t = tag.as_str(); let mut v = vec![lit_lang(l, &format!("{t}-GB")), lit_lang(&ext(l), t), lit_dt(l, &format!("{XSD}string"))]; /* (NOT an untagged literal typed rdf:langString: that term is ill-formed, and the property quantifies over well-formed terms) */ if let Some(k) = t.find('-') { v.push(lit_lang(l, &t[..k])); } v }
+        SimpleTerm::LiteralDatatype(l, d) if l.chars().next().is_some_and(|c| c.is_ascii_digit() || c == '-') && r.chance(2, 3) => {
+            // other spellings of the same number (not the same TERM): leading zero, plus sign, -0, decimal point
+            let digits = l.trim_start_matches('-'); let neg = l.starts_with('-');
+            vec![lit_dt(&format!("{}0{digits}", if neg { "-" } else { "" }), d.as_str()), lit_dt(&if neg { l.to_string() } else { format!("+{l}") }, d.as_str()), lit_dt(&if digits == "0" { "-0".to_string() } else { format!("{l}.0") }, d.as_str())] }
         SimpleTerm::LiteralDatatype(l, d) => vec![lit_dt(l, &ext(d.as_str())), lit_dt(&ext(l), d.as_str()), lit_lang(l, "en"), lit_dt(l, chop(d.as_str()))],
         SimpleTerm::Iri(i) => vec![iri(&ext(i.as_str())), iri(chop(i.as_str())), lit_dt(i.as_str(), &format!("{XSD}string")), lit_dt("", i.as_str())],
         SimpleTerm::BlankNode(b) => vec![bnode(&ext(b.as_str())), var(b.as_str()), iri(&format!("x:{}", b.as_str()))],
@@ -260,6 +267,7 @@ non-trivial pair = equal-but-differently-spelled terms, or same-kind unequal ter
                     (Rep::Simple(x), Rep::Simple(y)) => std_traits_agree(x, y), (Rep::Arc(x), Rep::Arc(y)) => std_traits_agree(x, y), (Rep::Rc(x), Rep::Rc(y)) => std_traits_agree(x, y),
                     (Rep::ArcStashed(x), Rep::Arc(y)) => std_traits_agree(x, y), (Rep::GenLit(x), Rep::GenLit(y)) => std_traits_agree(x, y),
                     (Rep::Cmp(x), Rep::Cmp(y)) => std_traits_agree(x, y), (Rep::CmpArc(x), Rep::CmpArc(y)) => std_traits_agree(x, y),
+                    (Rep::Result(x), Rep::Result(y)) | (Rep::ResultCached(x), Rep::ResultCached(y)) | (Rep::Result(x), Rep::ResultCached(y)) | (Rep::ResultCached(x), Rep::Result(y)) => std_traits_agree(x, y),
                     _ => None };
                 if let Some(d) = d { sum.oracle_failures.push((format!("{b}"), format!("std traits of {}: {d}; for {:?} / {:?}", rep_name(ra), pool[i].st, pool[j].st))); }
             } }
